@@ -182,7 +182,8 @@ def main():
     for n in (2, 3, 4, 5):
         for a in range(1, 101, 25):
             jobs.append((ground_job, (n, list(range(a, a + 25)))))
-    pts = [(2, k) for k in (sorted(rnd.sample(range(1, 101), 6)) if quick else range(1, 101))]
+    # quick: a fixed sample (solver cost differs between instances); thorough: every n = 2 function and a seeded n = 3 sample
+    pts = [(2, k) for k in ((14, 68, 79, 84, 90, 97) if quick else range(1, 101))]
     if not quick:
         pts += [(3, k) for k in sorted(rnd.sample(range(1, 101), 10))]
     for (n, k) in pts:
